@@ -128,14 +128,50 @@ def proto_y(h, r):
     return 0.5 + (0.3 + 0.2 * h) * PX * (1 + r) + g.uniform(-0.4, 0.4, len(PX))
 
 
-def build_objects(decls):
+# decoration of the functions of a history (case["deco"]): every function, chained or not, gets (inactive) bounds
+# and a weights callable, so that the callback re-fit runs through `weights(x, y)` and the bounded branch
+DECO_BOUNDS = {"tuples": [(-100.0, 100.0), (None, 100.0)], "lists": [[-100.0, None], [-100, 100]]}
+DECO_WEIGHTS = {
+    "y": lambda x, y: y,  # (returns the list itself when y arrives as a list)
+    "x": lambda x, y: x,
+    "1/y": lambda x, y: np.mean(y) / np.asarray(y),
+}
+
+
+def deco_of(case, h):
+    d = case.get("deco")
+    return d[h] if d else None
+
+
+def build_objects(decls, deco=None):
     from virocon.dependencies import DependenceFunction
 
     objs = []
-    for cs in decls:
+    for h, cs in enumerate(decls):
         kw = {f"c{i}": objs[g] for i, g in enumerate(cs)}
-        objs.append(DependenceFunction(PFUNCS[len(cs)], **kw))
+        if deco and deco[h]:
+            b, w = deco[h].get("bounds"), deco[h].get("weights")
+            objs.append(DependenceFunction(PFUNCS[len(cs)], bounds=DECO_BOUNDS[b] if b else None,
+                                           weights=DECO_WEIGHTS[w] if w else None, **kw))
+        else:
+            objs.append(DependenceFunction(PFUNCS[len(cs)], **kw))
     return objs
+
+
+def deco_lsq_weights(case, h, x, y):
+    """weights W_i of the objective sum_i W_i r_i^2 the code minimises for function h: curve_fit(sigma=weights(x, y)),
+    i.e. W = 1/sigma^2 (the documented semantics W = weights(x, y) is the known finding of Part B)"""
+    d = deco_of(case, h)
+    if not d or not d.get("weights"):
+        return [Fraction(1)] * len(y)
+    sig = np.asarray(DECO_WEIGHTS[d["weights"]](np.asarray(x, dtype=float), np.asarray(y, dtype=float)), dtype=float)
+    return [Fraction(1) / (fr(v) ** 2) for v in sig]
+
+
+def proto_call_y(case, f, r):
+    """the y object of a public call: ndarray, or a Python list (what ConditionalDistribution.fit hands over)"""
+    y = proto_y(f, r)
+    return [float(v) for v in y] if case.get("ylist") else y
 
 
 def _same_content(a, b):
@@ -335,13 +371,13 @@ def run_history_impl(case):
     decls, ops = case["decls"], case["ops"]
     with warnings.catch_warnings():
         warnings.simplefilter("ignore")
-        objs = build_objects(decls)
+        objs = build_objects(decls, case.get("deco"))
         with FitRecorder(objs) as rec:
             err = None
             try:
                 for f, r in ops:
                     rec.round = r
-                    objs[f].fit(proto_x(f, r), proto_y(f, r))  # fresh objects for every call
+                    objs[f].fit(proto_x(f, r), proto_call_y(case, f, r))  # fresh objects for every call
             except Exception as e:  # noqa: BLE001
                 err = f"{type(e).__name__}: {str(e)[:120]}"
         st = _state(objs, rec, decls)
@@ -351,13 +387,14 @@ def run_history_impl(case):
     return st
 
 
-def _ref_params(decls, last_round):
+def _ref_params(decls, last_round, case=None):
     """fit fresh objects in declaration (= dependency) order with each function's final data"""
+    case = case or {}
     with warnings.catch_warnings():
         warnings.simplefilter("ignore")
-        objs = build_objects(decls)
+        objs = build_objects(decls, case.get("deco"))
         for h in range(len(decls)):
-            objs[h].fit(proto_x(h, last_round[h]), proto_y(h, last_round[h]))
+            objs[h].fit(proto_x(h, last_round[h]), proto_call_y(case, h, last_round[h]))
     return [[float(v) for v in o.parameters.values()] for o in objs]
 
 
@@ -429,11 +466,17 @@ def history_oracle(case, objs, st):
             s = xh
         rows = [[Fraction(1), fr(v)] for v in s]
         y = [fr(v) for v in np.asarray(proto_y(h, last_round[-1]), dtype=float)]
-        sol = exact_lsq(rows, y, [Fraction(1)] * len(y))
+        sol = exact_lsq(rows, y, deco_lsq_weights(case, h, xh, proto_y(h, last_round[-1])))
         if sol is None:
             continue
         want = [float(v) for v in sol]
         got = st["params"][h]
+        d = deco_of(case, h)
+        if d and d.get("bounds"):
+            for v, (lo, hi) in zip(got, DECO_BOUNDS[d["bounds"]]):
+                if not ((lo is None or lo <= v) and (hi is None or v <= hi)):
+                    bad.append(("in_bounds", f"function {h}: parameters {got} outside the declared bounds "
+                                             f"{DECO_BOUNDS[d['bounds']]}"))
         if not close_params(got, want):
             bad.append(("fitted_after_conditioners",
                         f"function {h}: parameters {got} but the fit of the pairs of its latest public call (round "
@@ -447,9 +490,9 @@ def history_oracle(case, objs, st):
             last = {}
             for f, r in ops:
                 last[f] = r
-            key = json.dumps([decls, [last[h] for h in range(N)]])
+            key = json.dumps([decls, [last[h] for h in range(N)], case.get("deco"), case.get("ylist")])
             if key not in _REF_CACHE:
-                _REF_CACHE[key] = _ref_params(decls, [last[h] for h in range(N)])
+                _REF_CACHE[key] = _ref_params(decls, [last[h] for h in range(N)], case)
             ref = _REF_CACHE[key]
             for h in range(N):
                 if not close_params(st["params"][h], ref[h]):
@@ -623,6 +666,31 @@ def history_cases(ck, rng, thorough):
                 kinds.append("partial")
             ops += [[f, r] for f in order]
         yield {"kind": "history", "gen": "rounds", "shape": shape, "rounds": kinds, "decls": decls, "ops": ops}
+    # (2c) decorated functions: every chained function (and most others) carries bounds (inactive; tuples or lists,
+    #      float or int entries) and a weights callable, so that the re-fit triggered by a callback runs through
+    #      weights(x, y) and the bounded branch of fit_function; y handed over as ndarray or as a Python list
+    def random_deco(decls):
+        deco = []
+        for cs in decls:
+            if cs or rng.integers(0, 4):
+                deco.append({"bounds": str(rng.choice(["tuples", "lists"])) if (cs or rng.integers(0, 2)) else None,
+                             "weights": str(rng.choice(["y", "x", "1/y"]))})
+            else:
+                deco.append(None)
+        return deco
+
+    for name in ("chain2", "chain3", "fork", "join", "diamond", "double-binding", "triangle", "chain4"):
+        decls = NAMED[name]
+        N = len(decls)
+        perms = list(itertools.permutations(range(N)))
+        one = perms if (thorough or N <= 3) else [perms[i] for i in rng.choice(len(perms), size=8, replace=False)]
+        for p1 in one:
+            yield {"kind": "history", "gen": "decorated", "decls": decls, "deco": random_deco(decls),
+                   "ylist": bool(rng.integers(0, 2)), "ops": [[f, 0] for f in p1]}
+        for _ in range(40 if thorough else 5):
+            p1, p2 = perms[int(rng.integers(0, len(perms)))], perms[int(rng.integers(0, len(perms)))]
+            yield {"kind": "history", "gen": "decorated", "decls": decls, "deco": random_deco(decls),
+                   "ylist": bool(rng.integers(0, 2)), "ops": [[f, 0] for f in p1] + [[f, 1] for f in p2]}
     # (3) random longer histories on random DAGs with 5..7 functions
     for _ in range(6000 if thorough else 150):
         N = int(rng.integers(5, 8))
@@ -676,6 +744,14 @@ def process_histories(ck, cases, pool=None):
                 ck.count("history:re-fit(complete final round on new pairs)")
         for kind in graph_kinds(case["decls"]):
             ck.count("history:graph=" + kind)
+        if case.get("deco"):
+            cb = {e[0] for e in st["ev"] if 1 <= e[3] <= len(case["ops"]) and case["ops"][e[3] - 1][0] != e[0]}
+            for h in sorted(cb):
+                d = case["deco"][h]
+                if d and d.get("weights") and d.get("bounds"):
+                    ck.count("history:decorated:callback-re-fit-of-chained-function-with-bounds+weights")
+                    break
+            ck.count("history:decorated:y-as-" + ("list" if case.get("ylist") else "ndarray"))
         if any(1 <= e[3] <= len(case["ops"]) and case["ops"][e[3] - 1][0] != e[0] and e[1] not in ("?", epochs[0])
                for e in st["ev"]):
             ck.count("history:callback-triggered-fit-on-later-round-pairs")
@@ -704,6 +780,13 @@ def conddist_cases():
             for rounds in (1, 2, 3):
                 yield {"kind": "conddist", "gen": "conddist", "dist": "normal", "graph": name, "deps": deps,
                        "dict_order": dict_order, "rounds": rounds}
+    # the same with bounds (inactive) and a weights callable on every function: through ConditionalDistribution.fit
+    # the callable receives y as a Python LIST
+    for name, deps in (("sigma<-mu", {"mu": [], "sigma": ["mu"]}), ("mu<-sigma", {"sigma": [], "mu": ["sigma"]})):
+        for dict_order in (["mu", "sigma"], ["sigma", "mu"]):
+            for rounds, w in ((1, "y"), (2, "x"), (2, "1/y")):
+                yield {"kind": "conddist", "gen": "conddist", "dist": "normal", "graph": name, "deps": deps,
+                       "dict_order": dict_order, "rounds": rounds, "deco_w": w}
     # three parameters (alpha, beta, gamma) of a WeibullDistribution: chain, fork-join ("diamond" needs four), a
     # conditioner bound twice; every order of the parameters dict; fit, re-fit, re-re-fit on different data
     graphs = (("gamma<-beta<-alpha", {"alpha": [], "beta": ["alpha"], "gamma": ["beta"]}),
@@ -738,8 +821,15 @@ def run_conddist(case):
     objs, byname = [], {}
     with warnings.catch_warnings():
         warnings.simplefilter("ignore")
+        y_types = []
         for p in order:
             kw = {f"c{i}": byname[g] for i, g in enumerate(deps[p])}
+            if case.get("deco_w"):
+                def wfun(x, y, _k=case["deco_w"]):
+                    y_types.append(type(y).__name__)
+                    return DECO_WEIGHTS[_k](x, y)
+
+                kw.update(bounds=DECO_BOUNDS["tuples"], weights=wfun)
             o = DependenceFunction(PFUNCS[len(deps[p])], **kw)
             byname[p] = o
             objs.append(o)
@@ -790,7 +880,14 @@ def run_conddist(case):
                                     f"values, interval estimates of {order[h]})"))
                         break
                 s = sum(np.asarray(objs[g](x), dtype=float) for g in decls[h]) if decls[h] else x
-                sol = exact_lsq([[Fraction(1), fr(v)] for v in s], [fr(v) for v in y_handed], [Fraction(1)] * len(x))
+                wq = [Fraction(1)] * len(x)
+                if case.get("deco_w"):
+                    sig = np.asarray(DECO_WEIGHTS[case["deco_w"]](x, np.asarray(y_handed, dtype=float)), dtype=float)
+                    wq = [Fraction(1) / fr(v) ** 2 for v in sig]
+                    for v, (lo, hi) in zip(st["params"][h], DECO_BOUNDS["tuples"]):
+                        if not ((lo is None or lo <= v) and (hi is None or v <= hi)):
+                            bad.append(("in_bounds", f"{order[h]}: {st['params'][h]} outside {DECO_BOUNDS['tuples']}"))
+                sol = exact_lsq([[Fraction(1), fr(v)] for v in s], [fr(v) for v in y_handed], wq)
                 if sol is not None and not close_params(st["params"][h], [float(v) for v in sol]):
                     bad.append(("fitted_after_conditioners",
                                 f"{order[h]}: {st['params'][h]} vs fit of the last round's pairs given current "
@@ -804,6 +901,7 @@ def run_conddist(case):
                                     f"{order[h]}: {st['params'][h]} after {case['rounds']} fits, {fresh['params'][h]} "
                                     f"for a fresh model fitted to the last round's data"))
         st["oracle"] = bad
+        st["weights_y_types"] = sorted(set(y_types))
     return st, decls, ops
 
 
@@ -818,6 +916,8 @@ def process_conddist(ck):
                                                       and case["dict_order"] == ["mu", "sigma"]))
         ck.count("history:conddist")
         ck.count(f"history:conddist:rounds={case['rounds']}")
+        for t in st.get("weights_y_types", []):
+            ck.count("history:conddist:weights-callable-received-y-as-" + t)
         for kind in graph_kinds(decls):
             ck.count("history:conddist:graph=" + kind)
         for pred, detail in st["oracle"]:
@@ -825,6 +925,137 @@ def process_conddist(ck):
         d = compare_history(st, parse_proto(ans, decls))
         if d is not None and not st["oracle"]:
             ck.diverge("protocol:ConditionalDistribution.fit", full, d)
+
+
+# ---- the chained pair of the predefined OMAE2020 wind-wave model ----------
+# beta = logistics4 (start values = integer defaults of the signature, bounds, weights=y), alpha = alpha3 with
+# d_of_x=beta (bounds, weights=y): the chained function is non-linear, bounded and weighted, and is (re-)fitted by
+# the callback of beta when it is listed first.
+
+
+def _logistics4(x, a=1, b=1, c=-1, d=1):
+    return a + b / (1 + np.exp(c * (x - d)))
+
+
+def _alpha3(x, a, b, c, d_of_x):
+    return (a + b * x**c) / 2.0445 ** (1 / d_of_x(x))
+
+
+LOGISTICS_BOUNDS = [(0, None), (0, None), (None, 0), (0, None)]
+ALPHA_BOUNDS = [(0, None), (0, None), (None, None)]
+
+
+def chainfit_data(case, r):
+    g = np.random.default_rng([case["data_seed"], r])
+    n = case["n"]
+    x = np.sort(np.round(1.0 + g.uniform(0, 2, n) + 2.0 * np.arange(n), 2))
+    tb, ta = case["true_beta"], case["true_alpha"]
+    yb = _logistics4(x, *tb)
+    yb = yb * (1 + g.normal(0, 0.01, n))
+    ya = (ta[0] + ta[1] * x ** ta[2]) / 2.0445 ** (1 / _logistics4(x, *tb))
+    ya = ya * (1 + g.normal(0, 0.01, n)) * (1 + 0.05 * r)
+    return x, np.abs(yb) + 1e-3, np.abs(ya) + 1e-3
+
+
+def chainfit_cases(rng, thorough):
+    for i in range(60 if thorough else 12):
+        tb = [float(np.round(rng.uniform(0.5, 1.5), 3)), float(np.round(rng.uniform(0.8, 2.5), 3)),
+              float(np.round(rng.uniform(-1.2, -0.4), 3)), float(np.round(rng.uniform(2, 9), 2))]
+        # a < 0 at the unbounded optimum: the declared bound a >= 0 of the chained function is active
+        a_act = bool(i % 2)
+        ta = [float(np.round(rng.uniform(-0.6, -0.2) if a_act else rng.uniform(0.2, 1.0), 3)),
+              float(np.round(rng.uniform(0.3, 0.8), 3)), float(np.round(rng.uniform(0.9, 1.6), 3))]
+        for order in (["alpha", "beta"], ["beta", "alpha"]):
+            yield {"kind": "chainfit", "gen": "chainfit", "true_beta": tb, "true_alpha": ta, "n": int(rng.integers(7, 14)),
+                   "data_seed": int(rng.integers(0, 2**31)), "order": order, "rounds": 1 + (i % 3 == 0),
+                   "ylist": bool(rng.integers(0, 2)), "alpha_bound_active": a_act}
+
+
+def run_chainfit(case, want_ref=True):
+    from virocon.dependencies import DependenceFunction
+
+    out = {}
+    with warnings.catch_warnings():
+        warnings.simplefilter("ignore")
+        beta = DependenceFunction(_logistics4, LOGISTICS_BOUNDS, weights=lambda x, y: y)
+        alpha = DependenceFunction(_alpha3, ALPHA_BOUNDS, d_of_x=beta, weights=lambda x, y: y)
+        objs = {"alpha": alpha, "beta": beta}
+        out["declared_start"] = {k: list(o.parameters.values()) for k, o in objs.items()}
+        try:
+            for r in range(case["rounds"]):
+                x, yb, ya = _chainfit_data_for(case, r)
+                for name in case["order"]:
+                    y = ya if name == "alpha" else yb
+                    objs[name].fit(x, [float(v) for v in y] if case.get("ylist") else y)
+            out["params"] = {k: [float(v) for v in o.parameters.values()] for k, o in objs.items()}
+            out["may_fit"] = bool(alpha._may_fit)
+        except Exception as e:  # noqa: BLE001   (curve_fit may legitimately give up: RuntimeError)
+            out["err"] = f"{type(e).__name__}: {str(e)[:160]}"
+            out["err_type"] = type(e).__name__
+        if want_ref and "params" in out:
+            ref = run_chainfit(dict(case, order=["beta", "alpha"], rounds=1, _round=case["rounds"] - 1), want_ref=False)
+            out["ref"] = ref.get("params")
+    return out
+
+
+def _chainfit_data_for(case, r):
+    return chainfit_data(case, case.get("_round", r))
+
+
+def process_chainfit(ck, cases):
+    for case in cases:
+        impl = run_chainfit(case)
+        bad = chainfit_oracle(case, impl, ck)
+        ck.case(case, nontrivial="params" in impl, sample=(case["order"] == ["alpha", "beta"] and case["alpha_bound_active"]
+                                                            and ck.dist.get("chainfit:sampled") is None))
+        if case["order"] == ["alpha", "beta"] and case["alpha_bound_active"]:
+            ck.count("chainfit:sampled")
+        ck.count("chainfit:order=" + ",".join(case["order"]))
+        ck.count(f"chainfit:rounds={case['rounds']}")
+        ck.count("chainfit:y-as-" + ("list" if case.get("ylist") else "ndarray"))
+        if "params" not in impl:
+            ck.count("chainfit:optimiser-raised")
+        for pred, detail in bad:
+            ck.fail({"entry": "DependenceFunction.fit/_fit/callback", "predicate": pred,
+                     "where": "chained function with bounds and weights (alpha3 with d_of_x=logistics4, OMAE2020)"},
+                    case, detail)
+
+
+def chainfit_oracle(case, impl, ck=None):
+    bad = []
+    if impl["declared_start"] != {"alpha": [1, 1, 1], "beta": [1, 1, -1, 1]} or any(
+            type(v) is not int for vs in impl["declared_start"].values() for v in vs):
+        bad.append(("start_parameters_are_signature_defaults",
+                    f".parameters after construction are {impl['declared_start']}; the signatures declare "
+                    f"beta (a=1, b=1, c=-1, d=1) and no defaults for alpha (-> 1, 1, 1)"))
+    if "params" not in impl:
+        if impl.get("err_type") != "RuntimeError":
+            bad.append(("history_raises", impl.get("err", "?")))
+        return bad
+    if not impl["may_fit"]:
+        bad.append(("all_called_all_fitted", "alpha was fit-called and beta fitted, but alpha may still not fit"))
+    x, yb, ya = chainfit_data(case, case["rounds"] - 1)
+    pb = impl["params"]["beta"]
+    # the chained function given the CURRENT parameters of its conditioner
+    fa = (lambda xx, a, b, c: (a + b * xx**c) / 2.0445 ** (1 / _logistics4(xx, *pb)))
+    for name, f, y, p0, bounds in (("beta", _logistics4, yb, [1, 1, -1, 1], LOGISTICS_BOUNDS),
+                                  ("alpha", fa, ya, [1, 1, 1], ALPHA_BOUNDS)):
+        p = impl["params"][name]
+        sub = {"shape": name, "x": [float(v) for v in x], "y": [float(v) for v in y], "p0": p0,
+               "bounds": [list(b) for b in bounds], "weights": "y", "constraints": None}
+        b2, info = fit_oracle(sub, {"popt": p, "w": [float(v) for v in y]}, fobj=(f, len(p0), False))
+        for pred, detail in b2:
+            bad.append((pred, f"{name}: {detail}"))
+        if ck is not None and info.get("on_bound"):
+            ck.count(f"chainfit:{name}-result-on-a-declared-bound")
+    if impl.get("ref") is not None:
+        for name in ("beta", "alpha"):
+            if not close_params(impl["params"][name], impl["ref"][name]):
+                bad.append(("order_independent",
+                            f"{name}: {impl['params'][name]} after {case['rounds']} round(s) in the order {case['order']}, "
+                            f"but {impl['ref'][name]} for fresh objects fitted in dependency order (beta, alpha) to the "
+                            f"last round's pairs"))
+    return bad
 
 
 # ---------------------------------------------------------------------------
@@ -960,6 +1191,7 @@ def gen_fit_case(rng, shape, bounds_mode, weights, cons_mode):
     y = y0 + rng.normal(0, 0.03, n) * (np.abs(y0).mean() + 0.1)
     p0 = [t * float(1 + rng.uniform(-0.25, 0.25)) for t in true]
     bounds = None
+    jact = None
     if bounds_mode != "none":
         bounds = []
         jact = int(rng.integers(0, npar))
@@ -989,6 +1221,9 @@ def gen_fit_case(rng, shape, bounds_mode, weights, cons_mode):
         items = []
         for _ in range(1 if cons_mode.startswith("dict") else int(rng.integers(1, 3))):
             j = int(rng.integers(0, npar))
+            if bounds_mode == "active" and j == jact:
+                # keep the admissible set non-empty: the constraint cuts along another axis than the active bound
+                j = (j + 1 + int(rng.integers(0, npar - 1))) % npar
             sign = int(rng.choice([-1, 1]))
             coef = [0.0] * npar
             coef[j] = float(sign)
@@ -1000,9 +1235,34 @@ def gen_fit_case(rng, shape, bounds_mode, weights, cons_mode):
             rhs = val + margin if cons_mode.split("-")[1] == "active" and not items else val - 3 * margin
             items.append({"coef": coef, "rhs": float(np.round(rhs, 4))})
         cons = {"form": "dict" if cons_mode.startswith("dict") else "list", "items": items}
+    p0 = [float(v) for v in p0]
+    # how the start values get into the object: assigned to `.parameters` (as before), or declared as defaults in
+    # the signature of the shape (all of them / only the trailing ones, the others then start at 1: only without
+    # bounds, 1 may be outside)
+    p0_via = str(rng.choice(["assign", "defaults", "defaults", "partial-defaults"]))
+    if p0_via == "partial-defaults" and (bounds is not None or shape == "lnsquare2"):
+        p0_via = "defaults"
+    if p0_via == "partial-defaults":
+        nd = int(rng.integers(0, npar))  # number of trailing parameters with a default
+        p0 = [1] * (npar - nd) + p0[npar - nd:]
+    # form of the bounds: list of tuples (as in predefined.py), list of lists, integer-valued entries as Python ints
+    bounds_form = "tuples"
+    if bounds is not None:
+        bounds_form = str(rng.choice(["tuples", "lists", "int"]))
+        if bounds_form == "int":
+            def as_int(v, up, j):
+                if v is None:
+                    return None
+                w = int(np.ceil(v)) if up else int(np.floor(v))
+                # only where rounding outwards changes nothing for the case (the start stays strictly inside)
+                return w if (bounds_mode != "active" or j != jact) else v
+            bounds = [[as_int(lo, False, j), as_int(hi, True, j)] for j, (lo, hi) in enumerate(bounds)]
+    # y as a Python list (what ConditionalDistribution.fit hands over) or as an ndarray
+    y_as = "list" if rng.integers(0, 3) == 0 else "ndarray"
     return {"kind": "fit", "gen": "random", "shape": shape, "k": k, "m": m, "x": [float(v) for v in x],
-            "y": [float(v) for v in y], "p0": [float(v) for v in p0], "bounds": bounds, "weights": weights,
-            "constraints": cons, "bounds_mode": bounds_mode, "cons_mode": cons_mode}
+            "y": [float(v) for v in y], "p0": p0, "bounds": bounds, "weights": weights,
+            "constraints": cons, "bounds_mode": bounds_mode, "cons_mode": cons_mode, "p0_via": p0_via,
+            "bounds_form": bounds_form, "y_as": y_as}
 
 
 def build_constraints(cons):
@@ -1053,21 +1313,46 @@ def run_fit_impl(case):
     x, y = np.array(case["x"], dtype=float), np.array(case["y"], dtype=float)
     cons_decl, cons_dicts = build_constraints(case["constraints"])
     wfun = WEIGHT_KINDS[case["weights"]] if case["weights"] else None
-    bounds = [tuple(b) for b in case["bounds"]] if case["bounds"] is not None else None
+    bounds = None
+    if case["bounds"] is not None:
+        bounds = [list(b) for b in case["bounds"]] if case.get("bounds_form") == "lists" else [tuple(b) for b in case["bounds"]]
+    via = case.get("p0_via", "assign")
+    if via in ("defaults", "partial-defaults"):
+        # start values declared in the signature of the shape (make_shape returns a fresh function object)
+        lead = 0
+        while via == "partial-defaults" and lead < npar and isinstance(case["p0"][lead], int) and case["p0"][lead] == 1:
+            lead += 1
+        f.__defaults__ = tuple(case["p0"][lead:]) or None
     dep = DependenceFunction(f, bounds=bounds, constraints=cons_decl, weights=wfun)
-    dep.parameters = dict(zip(dep.parameters.keys(), case["p0"]))
     out = {"npar": npar, "linear": linear}
+    if via == "assign":
+        dep.parameters = dict(zip(dep.parameters.keys(), case["p0"]))
+    else:
+        out["declared_start"] = [v for v in dep.parameters.values()]
+    y_arg = [float(v) for v in y] if case.get("y_as") == "list" else y
     with warnings.catch_warnings():
         warnings.simplefilter("ignore")
         with OptRecorder() as rec:
             try:
-                dep.fit(x, y)
+                dep.fit(x, y_arg)
                 out["popt"] = [float(v) for v in dep.parameters.values()]
             except NotImplementedError:
                 out["err"] = "notImplemented"
             except Exception as e:  # noqa: BLE001
                 out["err"] = f"{type(e).__name__}: {str(e)[:160]}"
         # canonical form of the optimiser call, as the model prints it
+        try:
+            _canonical_call(out, rec, case, dep, f, x, y, cons_dicts)
+        except Exception as e:  # noqa: BLE001   (arguments of a kind the model cannot print: a divergence, not a crash)
+            out["call"] = ["UNPRINTABLE", type(e).__name__, str(e)[:80].replace(" ", "_")]
+            out["call_args_ok"] = False
+        if wfun is not None:
+            out["w"] = [float(v) for v in wfun(x, y)]
+    return out
+
+
+def _canonical_call(out, rec, case, dep, f, x, y, cons_dicts):
+    if True:
         if len(rec.calls) == 1:
             c = rec.calls[0]
             if c["opt"] == "curve_fit":
@@ -1104,9 +1389,6 @@ def run_fit_impl(case):
         else:
             out["call"] = ["MULTIPLE", str(len(rec.calls))]
             out["call_args_ok"] = False
-        if wfun is not None:
-            out["w"] = [float(v) for v in wfun(x, y)]
-    return out
 
 
 def dispatch_model_line(case, w):
@@ -1130,12 +1412,18 @@ def fit_sig(pred, where=None):
     return s
 
 
-def fit_oracle(case, impl):
+def fit_oracle(case, impl, fobj=None):
     """property clauses evaluated on the real fit; returns (bad list, info dict)"""
     bad, info = [], {}
-    f, npar, linear = make_shape(case["shape"], case.get("k"), case.get("m"))
+    f, npar, linear = fobj or make_shape(case["shape"], case.get("k"), case.get("m"))
     x, y = np.array(case["x"], dtype=float), np.array(case["y"], dtype=float)
     cons = case["constraints"]
+    if "declared_start" in impl:
+        ds = impl["declared_start"]
+        if not (len(ds) == len(case["p0"]) and all(type(a) is type(b) and a == b for a, b in zip(ds, case["p0"]))):
+            bad.append(("start_parameters_are_signature_defaults",
+                        f".parameters after construction are {ds}; the signature of the shape declares the defaults "
+                        f"{case['p0']} (parameters without a default start at 1)"))
     if "popt" not in impl:
         if impl.get("err") == "notImplemented" and cons is not None and case["weights"]:
             return bad, info  # explicit refusal: constrained + weighted
@@ -1163,12 +1451,18 @@ def fit_oracle(case, impl):
         return [float(np.dot(it["coef"], q) - it["rhs"]) for it in cons["items"]] if cons else []
 
     def ctol(it):
-        return 1e-6 * (1.0 + abs(it["rhs"]) + float(np.dot(np.abs(it["coef"]), np.abs(p))))
+        # SLSQP accepts a point whose summed constraint violation is below 10*acc (acc = ftol = 1e-6, relaxed test
+        # after an inexact line search): observed -9.2e-6 on the unchanged code (exp3, active bound + active constraint)
+        return 1e-5 + 1e-6 * (1.0 + abs(it["rhs"]) + float(np.dot(np.abs(it["coef"]), np.abs(p))))
 
     def admissible(q):
         return in_bounds(q) and all(v >= 0.0 for v in cons_vals(q))
 
     # 1. bounds (exact)
+    if case["bounds"] is not None and any(
+            (lo is not None and abs(v - lo) <= 1e-9 * (1 + abs(lo))) or (hi is not None and abs(v - hi) <= 1e-9 * (1 + abs(hi)))
+            for v, (lo, hi) in zip(p, case["bounds"])):
+        info["on_bound"] = True
     if not in_bounds(p):
         bad.append(("in_bounds", f"parameters {list(p)} outside declared bounds {case['bounds']}"))
     # 2. constraints
@@ -1190,6 +1484,7 @@ def fit_oracle(case, impl):
         f0 = obj_impl(p0)
         if not fp <= f0 * (1 + 1e-9) + atol:
             bad.append(("residual_le_start", f"residual {fp!r} at the result > {f0!r} at the start parameters"))
+            info.setdefault("gap", {})["residual_le_start"] = fp / max(f0 + atol, 1e-300)
     else:
         info["start_inadmissible"] = True
     # 4. nearby admissible perturbations
@@ -1224,6 +1519,7 @@ def fit_oracle(case, impl):
     if worst is not None:
         bad.append(("residual_le_admissible_perturbation",
                     f"residual {fp!r} at the result {list(p)} > {worst[0]!r} at the admissible nearby point {worst[1]}"))
+        info.setdefault("gap", {})["residual_le_admissible_perturbation"] = fp / max(worst[0] + atol, 1e-300)
     # 5./6. linear shapes: exact rational reference
     if linear:
         unit = np.eye(npar)
@@ -1278,6 +1574,7 @@ def fit_oracle(case, impl):
                     if not fp <= fq * (1 + 1e-5) + atol:
                         bad.append(("residual_le_admissible_perturbation",
                                     f"residual {fp!r} at the result {list(p)} > {fq!r} at the exact constrained optimum {q}"))
+                        info.setdefault("gap", {}).setdefault("residual_le_admissible_perturbation", fp / max(fq + atol, 1e-300))
         # documented weight semantics: sum_i w_i * r_i^2 with w = weights(x, y)
         if sigma is not None and len(set(impl["w"])) > 1 and cons is None and all(v > 0 for v in impl["w"]):
             w_doc = [fr(v) for v in impl["w"]]
@@ -1293,7 +1590,24 @@ def fit_oracle(case, impl):
 
 
 OPT_RTOL = 1e-5  # relative slack on squared residuals granted to the optimisers (x100 for non-linear shapes: flat valleys such as b/(1+c*x) ~ (b/c)/x)
-SLSQP_NONLINEAR_WHERE = "constraints declared (SLSQP path); shape non-linear in its parameters"
+
+
+def gap_class(ratio):
+    """coarse class of residual(result) / residual(reference point)"""
+    for lim, name in ((2.0, "at most 2x"), (100.0, "2x to 100x")):
+        if ratio <= lim:
+            return name
+    return "more than 100x"
+
+
+def slsqp_nonlinear_where(shape, ratio, linear=False):
+    """known-finding class of the SLSQP path (on the unchanged code: shapes non-linear in their parameters and the badly
+    scaled cubic polynomial): one signature per shape and gap class, so that a failure on another shape or with a gap
+    of another size is reported as a violation"""
+    return (f"constraints declared (SLSQP path); shape {shape} ({'linear' if linear else 'non-linear'} in its parameters); "
+            f"residual at the result {gap_class(ratio)} the residual at the reference point")
+
+
 WEIGHTS_WHERE = "weights callable with non-constant positive weights; shape linear in its parameters"
 
 
@@ -1305,8 +1619,13 @@ def process_fits(ck, cases):
         lines.append(dispatch_model_line(c, impl.get("w")))
     answers = ck.driver.run(lines)
     cert_lines, cert_meta = [], []
+    n_slsqp_nl, slsqp_nl_failed = 0, []
     for case, impl, ans in zip(cases, impls, answers):
         bad, info = fit_oracle(case, impl)
+        if case["constraints"] is not None and not impl["linear"] and "popt" in impl:
+            n_slsqp_nl += 1
+            if any(b[0] in ("residual_le_start", "residual_le_admissible_perturbation") for b in bad):
+                slsqp_nl_failed.append(case)
         nontrivial = "popt" in impl and len(case["x"]) >= 3
         ck.case({k: v for k, v in case.items()}, nontrivial=nontrivial,
                 sample=(case.get("gen") == "random" and case["shape"] == "exp3" and case["bounds_mode"] == "active"
@@ -1316,6 +1635,14 @@ def process_fits(ck, cases):
         ck.count("fit:weights=" + str(case["weights"]))
         ck.count("fit:constraints=" + case.get("cons_mode", "?"))
         ck.count("fit:optimiser=" + (impl["call"][1] if len(impl["call"]) > 1 else impl["call"][0]))
+        ck.count("fit:start-values-via=" + case.get("p0_via", "assign"))
+        ck.count("fit:y-passed-as=" + case.get("y_as", "ndarray"))
+        if case["bounds"] is not None:
+            ck.count("fit:bounds-form=" + case.get("bounds_form", "tuples"))
+            if case["constraints"] is not None:
+                ck.count("fit:constraints+bounds=" + case.get("bounds_mode", "?"))
+                if info.get("on_bound"):
+                    ck.count("fit:constraints+bounds:result-on-a-declared-bound")
         if info.get("fit_failed"):
             ck.count("fit:optimiser-raised")
         if info.get("constraint_active"):
@@ -1328,9 +1655,11 @@ def process_fits(ck, cases):
             ck.count("fit:linear-inactive-bounds(exact reference compared)")
         for pred, detail in bad:
             where = WEIGHTS_WHERE if pred == "weighted_residual_minimal_with_documented_weights" else None
-            if (pred in ("residual_le_start", "residual_le_admissible_perturbation")
-                    and case["constraints"] is not None and not impl["linear"]):
-                where = SLSQP_NONLINEAR_WHERE
+            if pred in ("residual_le_start", "residual_le_admissible_perturbation") and case["constraints"] is not None:
+                where = slsqp_nonlinear_where(case["shape"], info.get("gap", {}).get(pred, float("inf")), impl["linear"])
+                if os.environ.get("C14_COLLECT"):
+                    print("COLLECT", json.dumps(fit_sig(pred, where)), case.get("bounds_mode"), case.get("cons_mode"),
+                          info.get("gap", {}).get(pred), flush=True)
             ck.fail(fit_sig(pred, where), case, detail)
         real_bad = [b for b in bad if b[0] != "weighted_residual_minimal_with_documented_weights"]
         if impl["call"] != ans.split() or not impl["call_args_ok"]:
@@ -1359,6 +1688,15 @@ def process_fits(ck, cases):
                     toks += ["-" if sig is None else str(f2b(sig[i])), str(f2b(case["x"][i])), str(f2b(case["y"][i]))]
                 cert_lines.append(toks)
                 cert_meta.append((case, info, "affine"))
+    # the known class of the SLSQP path on non-linear shapes is rare on the unchanged code (about 0.4 % of such fits
+    # over 35000 sampled ones; 3 % is more than 7 times that): a higher rate is not the known finding
+    ck.count("fit:slsqp-nonlinear-fits", n_slsqp_nl)
+    ck.count("fit:slsqp-nonlinear-fits:residual-clause-failed", len(slsqp_nl_failed))
+    if len(slsqp_nl_failed) > max(4, 0.03 * n_slsqp_nl):
+        ck.fail(fit_sig("slsqp_nonlinear_residual_failure_rate"), slsqp_nl_failed[0],
+                f"{len(slsqp_nl_failed)} of {n_slsqp_nl} constrained fits of shapes non-linear in their parameters end "
+                f"above the start residual or above a nearby admissible point; on the unchanged code this happens in about "
+                f"0.4 % of such fits (the case is the first of them)")
     if cert_lines:
         for (case, info, kind), ans in zip(cert_meta, ck.driver.run(cert_lines)):
             t = ans.split()
@@ -1384,7 +1722,7 @@ def fit_cases(rng, thorough):
                         continue
                     yield gen_fit_case(rng, shape, bm, w, "none")
             for cm in ("dict-active", "dict-inactive", "list-active", "list-inactive"):
-                for bm in ("none", "inactive"):
+                for bm in ("none", "inactive", "active"):
                     yield gen_fit_case(rng, shape, bm, None, cm)
             yield gen_fit_case(rng, shape, "none", "y", "dict-active")
     # extra affine cases: the exact constrained optimum is known
@@ -1420,8 +1758,14 @@ def main(ck):
         "proper subset (partial round); random DAGs with 5-7 functions and "
         "histories up to length 27 with rounds 0-2 in any order; ConditionalDistribution.fit (Normal: 2 parameters, "
         "Weibull: 3 parameters; chain, fork-join, conditioner bound twice) with every order of the parameters dict, "
-        "1-3 fits on different data; numeric: 12 shapes x bounds "
-        "none/inactive/active x weights kinds x constraints dict/list active/inactive, 3-20 points. A history is "
+        "1-3 fits on different data, also with bounds + weights callable on every function (the callable then receives y "
+        "as a Python list); decorated histories: named DAGs whose functions carry inactive bounds (tuples / lists, float / "
+        "int entries) and a weights callable (y, x, 1/y), one and two rounds, y as ndarray or list; the chained pair of "
+        "the predefined OMAE2020 model (alpha3 with d_of_x=logistics4: bounds, weights=y, integer signature defaults; "
+        "bound a >= 0 of the chained function active in half of the cases) in both call orders, 1-2 rounds; numeric: 12 "
+        "shapes x bounds none/inactive/active x weights kinds x constraints dict/list active/inactive (constraints also "
+        "with active bounds) x start values assigned / signature defaults / partial defaults x bounds as tuples / lists / "
+        "Python ints x y as ndarray / list, 3-20 points. A history is "
         "non-trivial if it has >= 2 calls and calls a function that has a conditioner; a fit case if the fit "
         "returned and has >= 3 points; distinct by SHA1 of the case"
     )
@@ -1441,7 +1785,17 @@ def main(ck):
         "optimality_partial": "residual <= residual(start) and <= residual at admissible perturbations "
         "(relative 1e-1..1e-4 along axes and pairs of axes) is observed on the real optimiser output for every "
         "explored case; not a theorem (curve_fit / SLSQP are scipy's)",
-        "in_bounds_and_constraints_observed": "bounds exactly, constraints >= -1e-6*scale on the returned parameters",
+        "in_bounds_and_constraints_observed": "bounds exactly, constraints >= -(1e-5 + 1e-6*scale) on the returned "
+        "parameters (SLSQP accepts a summed violation below 10*acc, acc = 1e-6)",
+        "weights_with_constraints_not_covered": "a weights callable together with declared constraints is refused by the "
+        "code (NotImplementedError, fit_constrained_function supports 'lsq' only): for this combination of the "
+        "quantifier no fit exists, so no clause of the property is checked there; the refusal itself is compared with "
+        "the model's dispatch (constrained_weighted_refused)",
+        "slsqp_nonlinear_shapes": "constrained fits of shapes non-linear in their parameters: residual clauses fail in "
+        "about 0.4 % of the fits on the unchanged code (known findings, one signature per clause, shape and size class "
+        "of the gap); other shapes / size classes, or a rate above max(4, 3 %) of such fits in a run, are violations",
+        "start_values": "the start parameters are the defaults declared in the shape's signature (1 where there is "
+        "none): observed on the constructed object and at the optimiser call",
         "linear_shapes": "normal_equations_minimise / affineLsq_minimises are theorems; that curve_fit returns that "
         "solution (rtol 1e-5) is observed",
     }
@@ -1462,6 +1816,7 @@ def main(ck):
                 batch = []
         process_histories(ck, batch, pool)
         process_conddist(ck)
+        process_chainfit(ck, list(chainfit_cases(rng, thorough)))
         process_cbounds(ck, rng, 2000 if thorough else 200)
         process_fits(ck, list(fit_cases(rng, thorough)))
     finally:
@@ -1502,6 +1857,12 @@ def replay(ck, payload):
             ok = False
         print("impl log:", st["log"])
         print("impl _fit inputs [function, data epoch, start-value token, public call]:", st["ev"])
+    elif case["kind"] == "chainfit":
+        impl = run_chainfit(case)
+        print("impl:", impl)
+        for pred, detail in chainfit_oracle(case, impl):
+            print("oracle:", pred, detail)
+            ok = False
     elif case["kind"] == "cbounds":
         for pred, detail in oracle_cbounds(case):
             print("oracle:", pred, detail)
